@@ -101,7 +101,13 @@ class Walker:
                     if t is None or t.rstrip("/") == ht.rstrip("/"):
                         if "{DAV:}collection" not in rt2:
                             self.viol(f"{sb}/home-set-not-a-collection/{key}", f"[{self.shape()}] {ht}: {rt2!r}")
+                        self.res.count("home_set_type_checks")
+                        if CAL_RT in rt2 or AB_RT in rt2:
+                            # a client would take the home set itself for a calendar / an address book
+                            self.viol(f"{sb}/home-set-listed-as-calendar-or-addressbook/{key}", f"[{self.shape()} life {life}] the home set {ht} is listed with resourcetype {rt2!r}")
                         continue
+                    if CAL_RT in rt2 and AB_RT in rt2:
+                        self.viol(f"{sb}/collection-listed-as-both-calendar-and-addressbook/{key}", f"[{self.shape()} life {life}] {t}: resourcetype {rt2!r}")
                     if want in rt2:
                         out[key][t] = {"rt": rt2, "displayname": resp.prop_text(X.P_DISPLAYNAME)}
         return out
